@@ -617,7 +617,8 @@ class PlSqlDialect(AnsiSqlDialect):
             "or",
             "oracle",
             "oradata",
-            "order,overlaps",
+            "order",
+            "overlaps",
             "organization",
             "orlany",
             "orlvary",
